@@ -1119,21 +1119,21 @@ func (e *vfCFEnv) responses(rs []int, msg wire.Message) []vfCFResp {
 			m = e.respCFHeaders(p, q, true)
 		case *wire.MsgGetCFilters:
 			m = e.respFilter(p, q)
-			// An honest peer's answer is preceded by a cfilter message of that
-			// peer for ANOTHER block (the answer to a concurrent GetCFilter
-			// query: queryAllPeers hands every message of a subscribed peer to
-			// the callback). It must be ignored.
-			if m != nil && e.kind(p) == "H" {
-				if c, r, ok := e.locate(q.StopHash); ok && r > 0 && c.blk[r] != nil {
-					if data, err := e.filterFor(c, r, "om", p).NBytes(); err == nil {
-						other := c.hash[r-1]
-						out = append(out, vfCFResp{peer: p,
-							msg: wire.NewMsgCFilter(q.FilterType, &other, data)})
-					}
+		}
+		out = append(out, vfCFResp{peer: p, msg: m})
+		// An honest peer's answer is followed by a cfilter message of that peer
+		// for ANOTHER block (the answer to a concurrent GetCFilter query:
+		// queryAllPeers hands every message of a subscribed peer to the
+		// callback until the query ends). It must be ignored.
+		if q, isF := msg.(*wire.MsgGetCFilters); isF && m != nil && e.kind(p) == "H" {
+			if c, r, ok := e.locate(q.StopHash); ok && r > 0 && c.blk[r] != nil {
+				if data, err := e.filterFor(c, r, "om", p).NBytes(); err == nil {
+					other := c.hash[r-1]
+					out = append(out, vfCFResp{peer: p,
+						msg: wire.NewMsgCFilter(q.FilterType, &other, data)})
 				}
 			}
 		}
-		out = append(out, vfCFResp{peer: p, msg: m})
 	}
 	return out
 }
